@@ -40,7 +40,7 @@ P, RP = "polynomial.Polynomial", "polynomial.RationalPolynomial"
 def poly_from_args(args) -> Poly:
     out = Poly()
     for mono in args:
-        term = Poly.const(Fraction(mono[0]) if not isinstance(mono[0], float) else Fraction(mono[0]).limit_denominator(10 ** 9))
+        term = Poly.const(Fraction(mono[0]))
         for v in mono[1:]:
             if isinstance(v, str):
                 term = term * Poly.atom(v)
@@ -487,11 +487,12 @@ POLY_REPS = {
     "ab": [[1, "a", "b"]], "1": [[1]], "0": [], "zero": [[0]], "3": [[3]], "a^2": [[1, "a", "a"]],
     "a+ab+b": [[1, "a"], [1, "a", "b"], [1, "b"]], "-a-ab": [[-1, "a"], [-1, "a", "b"]], "5+a": [[5], [1, "a"]],
     "c+d": [[1, "c"], [1, "d"]], "-3b": [[-3, "b"]], "c": [[1, "c"]],
+    "tiny a + b": [[2.0 ** -44, "a"], [1, "b"]], "tiny 2a + b": [[2.0 ** -43, "a"], [1, "b"]], "0.5a": [[0.5, "a"]], "-0.25a+b": [[-0.25, "a"], [1, "b"]],
 }
 POLY_PAIRS = [("a", "b"), ("b", "a"), ("2a+3b", "-2a+c"), ("a+ab+b", "-a-ab"), ("a", "a"), ("2a+3b", "-3b"), ("ab", "a^2"),
               ("5+a", "3"), ("a", "0"), ("0", "a"), ("zero", "b"), ("1", "a+ab+b"), ("c+d", "a+ab+b"), ("a+ab+b", "c+d"),
               ("-2a+c", "2a+3b"), ("a^2", "a^2"), ("5+a", "5+a"), ("-a-ab", "a+ab+b"), ("c", "5+a"), ("5+a", "c"), ("b", "a+ab+b"),
-              ("c+d", "5+a")]
+              ("c+d", "5+a"), ("tiny a + b", "tiny 2a + b"), ("0.5a", "-0.25a+b"), ("tiny a + b", "0.5a")]
 
 
 @rule("C17.polynomial-arith", props=["C17"], min_instances=60, mutants=[
@@ -500,6 +501,7 @@ POLY_PAIRS = [("a", "b"), ("b", "a"), ("2a+3b", "-2a+c"), ("a+ab+b", "-a-ab"), (
     ("product drops a factor of the right monomial", ("polynomial", "                    if isinstance(eb, str): C.append(eb)\n                    else: C[0] *= eb\n                    j += 1", "                    if isinstance(eb, str) and eb not in C: C.append(eb)\n                    else: C[0] *= eb if not isinstance(eb, str) else 1\n                    j += 1")),
     ("negation keeps the sign of later terms", ("polynomial", "return self.__class__([[-monomial[0], *monomial[1:]] for monomial in self.args])", "return self.__class__([[-monomial[0], *monomial[1:]] for monomial in self.args[:1]] + self.args[1:])")),
     ("single-monomial fast path appends terms unsorted", ("polynomial", "        res = Polynomial([])\n        al = len(self)", "        if len(self) == 1 and len(other) > 1:\n            A = self[0]\n            return Polynomial([[A[0] * B[0], *sorted([*A[1:], *B[1:]])] for B in other.args])\n        res = Polynomial([])\n        al = len(self)")),
+    ("merged coefficients below a tolerance are dropped", ("polynomial", "                if ea[0] != 0:\n                    res.append(ea)", "                if abs(ea[0]) > 1e-12:\n                    res.append(ea)")),
     ("monomial order ignores length", ("polynomial", "    return la - lb", "    return 0")),
 ])
 def polynomial_arith(ctx):
